@@ -12,9 +12,19 @@ pub struct Regex {
 
 impl Regex {
     pub fn new(re: &str, case_insensitive: bool) -> Result<Regex, regex::Error> {
+        Self::new_with(re, case_insensitive, false)
+    }
+
+    /// Like `new`, but additionally allows to make `.` match a newline character.
+    pub fn new_with(
+        re: &str,
+        case_insensitive: bool,
+        dot_matches_new_line: bool,
+    ) -> Result<Regex, regex::Error> {
         assert!(re.starts_with('^'));
         let regex = regex::RegexBuilder::new(re)
             .case_insensitive(case_insensitive)
+            .dot_matches_new_line(dot_matches_new_line)
             .build()?;
         let fixed_prefix = if case_insensitive {
             Self::get_fixed_prefix(re).to_lowercase()
